@@ -99,7 +99,15 @@ type WorkerResult struct {
 	SimTimeS   float64           `json:"sim_time_s"`
 	WallS      float64           `json:"wall_s"`
 	Wedged     bool              `json:"wedged,omitempty"`
+	CaseHashes map[string]string `json:"case_hashes,omitempty"` // engines that expose a per-case transcript hash (cross-process comparison)
 }
+
+// CaseHasher is implemented by engines whose cases have a transcript hash that
+// must be identical in every process.
+type CaseHasher interface{ CaseHash() string }
+
+// ExpectSetter lets the driver turn a case into a cross-process replay.
+type ExpectSetter interface{ SetExpect(c any, hash string) }
 
 func envInt(name string, def int) int {
 	if v := os.Getenv(name); v != "" {
@@ -245,6 +253,20 @@ func RunWorker(e Engine) int {
 		}
 	}()
 
+	if d := os.Getenv("VERIF_DUMP_CASE"); d != "" {
+		// write case <d> as a replay file expecting transcript hash VERIF_EXPECT
+		idx, _ := strconv.Atoi(d)
+		c := e.Gen(NewRand(seed, e.Name(), uint64(idx)), tier)
+		if es, ok := e.(ExpectSetter); ok {
+			es.SetExpect(c, os.Getenv("VERIF_EXPECT"))
+		}
+		env := &Envelope{Property: e.Property(), Engine: e.Name(), Seed: seed, Case: idx, Body: marshalBody(c),
+			Expect: &Violation{Oracle: "process-differs", Detail: "transcript differs between processes"}}
+		fmt.Printf("DUMPED %s\n", writeReplay(env))
+		close(stop)
+		return 0
+	}
+	hasher, _ := e.(CaseHasher)
 	for idx := worker; idx < n; idx += workers {
 		r := NewRand(seed, e.Name(), uint64(idx))
 		c := e.Gen(r, tier)
@@ -252,6 +274,12 @@ func RunWorker(e Engine) int {
 		setInflight(env)
 		v := e.Run(c, st)
 		res.Cases++
+		if hasher != nil && v == nil {
+			if res.CaseHashes == nil {
+				res.CaseHashes = map[string]string{}
+			}
+			res.CaseHashes[strconv.Itoa(idx)] = hasher.CaseHash()
+		}
 		if len(st.Samples) < 3 && idx%7 == worker%7 {
 			st.Samples = append(st.Samples, env.Body)
 		}
